@@ -318,3 +318,12 @@ Theorem c07_mutation_publish_order_is_source :
   count_occ string_dec (call_list "Collection.Delete") "t.rootCAS" = 1%nat.
 Proof. exact DecPublish.mutation_publish_order. Qed.
 Print Assumptions c07_mutation_publish_order_is_source.
+
+From GK Require Import DecSites.
+(* WHERE Store.size moves: the three record writers, the root scan, FlushRevert's step; never Flush itself *)
+Theorem c07_size_update_sites_are_source :
+  sites "atomic.StoreInt64" = ["Store.readRoots"; "Store.scanBackwardsForMagicEnd"; "Store.setSize"; "Store.writeRoots"; "itemLoc.write"] /\
+  sites "atomic.AddInt64" = ["Store.FlushRevert"; "Store.readRootsScan"; "Store.scanBackwardsForMagicEnd"] /\
+  sites "setSize" = ["nodeLoc.write"].
+Proof. exact DecSites.size_update_sites. Qed.
+Print Assumptions c07_size_update_sites_are_source.
